@@ -192,6 +192,15 @@ func report(ex *Exec, verbose bool) int {
 		fmt.Println("   UNSUPPORTED/BINDING:", e)
 		bad++
 	}
+	nerr := 0
+	for _, ob := range ex.obls {
+		if ob.Result != nil && strings.Contains(strings.Join(ob.Result.Tried, " "), ":error:") {
+			nerr++
+		}
+	}
+	if nerr > 0 {
+		fmt.Printf("   WARNING  %d queries were rejected by a back end (syntax/sort error in the generated SMT text)\n", nerr)
+	}
 	for _, g := range groupObls(ex.obls) {
 		status := "ok"
 		if strings.Contains(g.name, "#canary:") {
